@@ -262,6 +262,7 @@ Definition builtin (name : string) (args : list val) (kws : list (string * val))
                      | [VList _; VMod "list"] => Ok (VBool true) | [_; VMod "list"] => Ok (VBool false)
                      | [VInt _; VMod "int"] => Ok (VBool true) | [VBool _; VMod "int"] => Ok (VBool true) | [_; VMod "int"] => Ok (VBool false)
                      | _ => Stuck "isinstance" end) w)
+  | "callable" => Some (pure_ (match args with [VObj "<bound method>" _] => Ok (VBool true) | [VObj _ _] => Stuck "callable(object)" | [_] => Ok (VBool false) | _ => Stuck "callable" end) w)
   | "tuple" => Some (pure_ (match args with [a] => do l <- as_list a; Ok (VTuple l) | _ => Stuck "tuple" end) w)
   | "np.ones" => Some (pure_ (match args with [VInt n] => Ok (VList (repeat (VNum (Fin 1)) (Z.to_nat n))) | _ => Stuck "np.ones" end) w)
   | "np.nan_to_num" => Some (num1 xnan_to_num args w)
@@ -469,7 +470,11 @@ Fixpoint eval (fuel : nat) (e : expr) (ρ : env) (w : world) {struct fuel} : res
   | EAttr e' a =>
       do vw <- eval f e' ρ w;
       match fst vw with
-      | VObj _ fs => match field_get a fs with Some v => Ok (v, snd vw) | None => Exc "AttributeError" end
+      | VObj cls fs => match field_get a fs with
+                       | Some v => Ok (v, snd vw)
+                       | None => match methods G cls a with
+                                 | Some _ => Ok (VObj "<bound method>" [("self", fst vw); ("cls", VStr cls); ("name", VStr a)], snd vw)
+                                 | None => Exc "AttributeError" end end
       | VMod "np" => Ok (match a with "inf" => VNum PosInf | "pi" => VNum (Fin PI) | _ => VMod ("np." ++ a) end, snd vw)
       | VMod m => match globals G (m ++ "." ++ a) with
                   | Some (COracle o) => o [] [] (snd vw)
@@ -544,6 +549,14 @@ Fixpoint eval (fuel : nat) (e : expr) (ρ : env) (w : world) {struct fuel} : res
                   | _, _ => Stuck ("dict method " ++ m) end
               | _ => Stuck "call: receiver"
               end
+          | EName x =>
+              match lookup x ρ with
+              | Some (VObj "<bound method>" bf) =>
+                  match field_get "self" bf, field_get "cls" bf, field_get "name" bf with
+                  | Some o, Some (VStr cls), Some (VStr m) =>
+                      match methods G cls m with Some c => call f c (Some o) argv kwv w1 | None => Stuck "bound method" end
+                  | _, _, _ => Stuck "bound method" end
+              | _ => Stuck "call: callee" end
           | _ => Stuck "call: callee"
           end
       end
